@@ -1,6 +1,6 @@
 #!/bin/sh
 # dev/seed_demo.sh <ID> [outdir]: confirm in the scratch worktree that demo.py fails with the patch and passes without it
-B=${WTBASE:-/tmp/wt}; ID=$1; OUT=${2:-$B/${ID}_out}; WT=$B/$ID
+B=${WTBASE:-/tmp/wt2}; ID=$1; OUT=${2:-$B/${ID}_out}; WT=$B/$ID
 cd $WT && git checkout -q -- . && git apply $OUT/patch.diff || { echo "APPLY FAILED"; exit 9; }
 PYTHONPATH=$WT JAX_PLATFORMS=cpu timeout 1200 /venv/bin/python $OUT/demo.py > $B/${ID}_with.log 2>&1; W=$?
 git checkout -q -- .
